@@ -94,6 +94,7 @@ theorem safe_standardBins : ∀ a b, safe (pStandardBins a b) = true := by decid
 theorem safe_fitVariogram : ∀ a b c, safe (pFitVariogram a b c) = true := by decide
 theorem safe_transform : ∀ a b c d, safe (pTransform a b c d) = true := by decide
 theorem safe_pureFn : safe pPureFn = true := by decide
+theorem safe_covModelInit : ∀ a b, safe (pCovModelInit a b) = true := by decide
 
 /-- the ownership analysis accepts every modelled entry point under every aliasing-enabling configuration -/
 theorem all_entry_points_safe (ep : EP) (c : Cfg) : safe (prog ep c) = true := by
@@ -113,6 +114,7 @@ theorem all_entry_points_safe (ep : EP) (c : Cfg) : safe (prog ep c) = true := b
   · exact safe_fitVariogram ..
   · exact safe_transform ..
   · exact safe_pureFn
+  · exact safe_covModelInit ..
 
 /-- **C20, first half.**  For every entry point, every configuration and every heap — whatever arrays
     the caller passes (any dtype/layout flags, any aliasing between the arguments) and whatever is stored
@@ -248,6 +250,15 @@ theorem varioAxis_old_writes_mask :
       (run σ (progOld .varioAxis { masked := true, missing := true })).ver b ≠ σ.ver b :=
   ⟨by decide, ⟨{ next := 2, env := [(V.field, Obj.marr 0 1)], attrs := [], rets := [], written := [], ver := fun _ => 0 },
     1, by decide, by decide, by decide⟩⟩
+
+/-- before 9340584: `gs.Gaussian(latlon=True, temporal=True, anis=<float64 array, long enough>)` (and the `anis`
+    setter) set the first two entries of the caller's `anis` array to 1 -/
+theorem covModelInit_old_writes_anis :
+    safe (progOld .covModelInit { latlon := true }) = false ∧
+    ∃ σ : St, ∃ b, b < σ.next ∧ b ∈ (get σ.env V.anis).all ∧
+      (run σ (progOld .covModelInit { latlon := true })).ver b ≠ σ.ver b :=
+  ⟨by decide, ⟨{ next := 1, env := [(V.anis, Obj.arr 0)], attrs := [], rets := [], written := [], ver := fun _ => 0 },
+    0, by decide, by decide, by decide⟩⟩
 
 /-- …and the old code was harmless exactly where aliasing was impossible: an int / float32 / list input
     (not `f64`) is converted to a new array first -/
